@@ -320,12 +320,12 @@ func refSuspicionTimeout(n, k int, min, max time.Duration) time.Duration {
 // ---------------------------------------------------------------- world
 
 type worldCfg struct {
-	Reclaim  time.Duration
-	CIDRs    []string
-	Peers    int // background alive peers p1..pn
-	SuspMult int
-	Opts     []nodeOpt
-	Monitor  bool // attach the C07 event monitor
+	Reclaim   time.Duration
+	CIDRs     []string
+	Peers     int // background alive peers p1..pn
+	SuspMult  int
+	Opts      []nodeOpt
+	Monitor   bool // attach the C07 event monitor
 	NoRefDiff bool
 }
 
@@ -344,17 +344,17 @@ var (
 		IP   net.IP
 		Port uint16
 	}{
-		"A":  {ip4(2), 7946},
-		"B":  {ip4(3), 7946},
-		"C":  {ip4(4), 7946},
-		"D":  {ip4(5), 7946},
-		"O":  {ip4(1), 7946},      // o's own
-		"O2": {ip4(77), 7946},     // a different address claimed for o
-		"AP": {ip4(2), 8000},      // same IP other port
-		"X4": {net.IPv4(192, 168, 9, 9).To4(), 7946},
-		"X6": {net.ParseIP("2001:db8::9"), 7946},
-		"A16": {net.IPv4(10, 0, 0, 2).To16(), 7946}, // 16-byte form of A
-		"X16": {net.IPv4(192, 168, 9, 9).To16(), 7946},
+		"A":    {ip4(2), 7946},
+		"B":    {ip4(3), 7946},
+		"C":    {ip4(4), 7946},
+		"D":    {ip4(5), 7946},
+		"O":    {ip4(1), 7946},  // o's own
+		"O2":   {ip4(77), 7946}, // a different address claimed for o
+		"AP":   {ip4(2), 8000},  // same IP other port
+		"X4":   {net.IPv4(192, 168, 9, 9).To4(), 7946},
+		"X6":   {net.ParseIP("2001:db8::9"), 7946},
+		"A16":  {net.IPv4(10, 0, 0, 2).To16(), 7946}, // 16-byte form of A
+		"X16":  {net.IPv4(192, 168, 9, 9).To16(), 7946},
 		"V6ok": {net.ParseIP("fd00::5"), 7946},
 		"L3":   {net.IP{10, 0, 0}, 7946},
 		"L5":   {net.IP{10, 0, 0, 2, 1}, 7946},
